@@ -452,6 +452,9 @@ class Eval(object):
             return self.ev(e['e'], fn, env)
         if k == 'init' and len(e.get('es', [])) == 1:
             return self.ev(e['es'][0], fn, env)
+        if k == 'init':
+            # aggregate initialisation of a small value object: a value with identity determined by its parts
+            return Opaque(('constructed',) + tuple(self.ev(x, fn, env) for x in e.get('es', [])))
         if k == 'ctor':
             args = [self.ev(a, fn, env) for a in e.get('args', [])]
             if (e.get('copy') or e.get('move')) and len(args) == 1:
